@@ -280,6 +280,60 @@ def _lockset_census(ctx: Context) -> None:
                 detail = f"{c.name}.{fld} is written without a common lock and is not a field confirmed benign: {sites}"
             rep.ob("C08.R11", key, False, wh, detail)
     rep.floor("C08.R11", "written instance fields of thread-shared classes (sync)", nfields, 20)
+    # ---- R12: no unlocked check-then-act on a lock-managed field.  A field that some routine writes under a lock is read in the
+    #      test of an `if` / `while` WITHOUT that lock only by the advisory predicates; anywhere else the decision can be stale by
+    #      the time its branch acts (another thread has taken the connection, the branch closes it under that thread).
+    PREDICATES = ("is_available", "has_expired", "is_idle", "is_closed", "info", "__repr__", "can_handle_request")
+    ngate = 0
+    for mod, cn in SHARED_CLASSES:
+        c = N.cls(mod, cn)
+        locked_writes: dict[str, set[str]] = {}
+        for f in c.methods.values():
+            if f.name == "__init__":
+                continue
+            for n in own_nodes(f.node):
+                if isinstance(n, ast.Attribute) and isinstance(n.value, ast.Name) and n.value.id == "self" and not isinstance(n.ctx, ast.Load):
+                    held = L.must_hold(n, f)
+                    if held:
+                        locked_writes.setdefault(n.attr, set()).update(held)
+        for f in c.methods.values():
+            if f.name == "__init__" or f.name in PREDICATES:
+                continue
+            for n in own_nodes(f.node):
+                if isinstance(n, ast.Attribute) and isinstance(n.value, ast.Name) and n.value.id == "self" and isinstance(n.ctx, ast.Load) and n.attr in locked_writes:
+                    q = parent(n)
+                    while q is not None and not isinstance(q, ast.stmt):
+                        q = parent(q)
+                    if not (isinstance(q, (ast.If, ast.While)) and any(y is n for y in ast.walk(q.test))):
+                        continue
+                    held = L.must_hold(n, f)
+                    ngate += 1
+                    ok = bool(held & locked_writes[n.attr]) or (inv.get(c.name, c.name), n.attr, f.name) in UNLOCKED_GATES_OK
+                    if not ok:
+                        # a field that only ever goes from None to an object (never back) tested for presence: a stale answer can
+                        # only be "not yet", and acting on "present" is acting on something that stays true
+                        wvals = [parent(w).value for f2 in c.methods.values() if f2.name != "__init__" for w in own_nodes(f2.node)
+                                 if isinstance(w, ast.Attribute) and isinstance(w.value, ast.Name) and w.value.id == "self" and w.attr == n.attr and isinstance(w.ctx, ast.Store)
+                                 and isinstance(parent(w), ast.Assign)]
+                        monotonic = bool(wvals) and not any(isinstance(v_, ast.Constant) for v_ in wvals)
+                        par_ = parent(n)
+                        positive = par_ is q or (isinstance(par_, ast.BoolOp) and isinstance(par_.op, ast.And)) or \
+                            (isinstance(par_, ast.Compare) and isinstance(par_.ops[0], ast.IsNot) and isinstance(par_.comparators[0], ast.Constant) and par_.comparators[0].value is None)
+                        ok = monotonic and positive
+                    # a branch that only raises / returns a refusal acts on nothing shared; a branch that calls or stores does
+                    acts = any(isinstance(y, (ast.Call, ast.Attribute)) and (isinstance(y, ast.Call) or not isinstance(y.ctx, ast.Load)) for st_ in q.body for y in ast.walk(st_)
+                               if not (isinstance(y, ast.Call) and isinstance(parent(y), ast.Raise)))
+                    rep.ob("C08.R12", f"sync|{c.name}.{f.name}|unlocked-gate:{n.attr}:{_occ(n, f)}", ok or not acts, where(f, n),
+                           f"`self.{n.attr}` is tested holding {sorted(h.split('.')[-1] for h in held) or 'no lock'}" + ("" if ok or not acts else
+                           f" although it is written under {sorted(h.split('.')[-1] for h in locked_writes[n.attr])}: the branch acts on a decision another thread can have invalidated "
+                           "(e.g. it closes a connection that a second thread has meanwhile taken and is using)"))
+    rep.floor("C08.R12", "tests of lock-managed fields outside the advisory predicates (sync)", ngate, 8)
+
+
+UNLOCKED_GATES_OK: dict[tuple[str, str, str], str] = {
+    ("AsyncPoolRequest", "connection", "wait_for_connection"): "store-before-set protocol: the assigner stores the connection and then sets the event; the waiter tests the field before it waits "
+                                                               "and reads it again after the wait (C08.R7, C07.R2) - a stale None only costs one wait on an event that is already set",
+}
 
 
 _core_run6 = run
@@ -287,5 +341,6 @@ _core_run6 = run
 
 def run(ctx: Context) -> None:  # noqa: F811
     _core_run6(ctx)
+    ctx.rep.rule("C08.R12", "no unlocked check-then-act: outside the advisory predicates, a field that is written under a lock is tested (if / while) only while holding that lock, unless the branch acts on nothing")
     ctx.rep.rule("C08.R11", "lockset census: every written field of a thread-shared class is consistently locked, single-writer-locked with plain reads, or an enumerated benign field; no unlocked check-then-act on a shared table")
     _lockset_census(ctx)
